@@ -42,7 +42,7 @@ def gen_version_ast(d, safe_seps=False):
     """safe_seps: restrict separators to those that C07 shows are handled literally on the unchanged
     tree ('|', '^', '$', backslash are never generated here; they are C07's subject)."""
     nodes = []
-    prefix = d.choice(["", "", "v", "v", "r", "rel-", "version_"])
+    prefix = d.choice(["", "", "v", "v", "r", "rel-", "version_", "py3"])
     if prefix:
         nodes.append(["lit", prefix])
     kind = d.choice(["cal", "cal", "sem", "iso", "cal+sem"])
@@ -238,7 +238,8 @@ def gen_pattern_and_state(d, safe_seps=False):
 
 # ------------------------------------------------------------------ PEP 440-shaped sub-grammar (C15, {pep440_version})
 
-PEP_TAGKINDS = ["none", "[PYTAGNUM]", "[-TAG]", "[-TAGNUM]", "[.PYTAGNUM]", "[-TAG[NUM]]", "[PYTAG[NUM]]", "[_TAGNUM]", "[TAGNUM]"]
+PEP_TAGKINDS = ["none", "[PYTAGNUM]", "[-TAG]", "[-TAGNUM]", "[.PYTAGNUM]", "[-TAG[NUM]]", "[PYTAG[NUM]]", "[_TAGNUM]", "[TAGNUM]",
+                "[.TAG]", "[.TAG[NUM]]", "[_TAG[NUM]]"]
 
 
 def gen_pep440_ast(d):
